@@ -309,6 +309,9 @@ def run(prog: Program, tier: str) -> List[RuleResult]:
 
     # the caching iterator behind every variable domain: a value lost from the cache is a solution lost from every later evaluation
     from .c01 import ep_selected
+    from .c12 import arg_symbolic
 
     # a row whose selected value is falsy is a solution like any other
-    return [ep_bound(prog), ep_gate(prog), or_form(prog), ep_neg(prog), domain_cache(prog), ep_selected(prog)]
+    return [ep_bound(prog), ep_gate(prog), or_form(prog), ep_neg(prog), domain_cache(prog), ep_selected(prog),
+            # predicates are atoms of the fragment: an argument expression wrapped as a literal changes which assignments satisfy the atom
+            arg_symbolic(prog)]
